@@ -61,7 +61,7 @@ CHECKS = {
    text="CustomClaim::try_from on all 69 905 strings of length <= 4 over a 16-symbol alphabet x 3 forms, decorated variants x 6 forms, 2e4 random keys: fails iff the key is literally reserved. Time constructors accept every strict RFC 3339 rendering verbatim (also through a built token) and refuse strings that cannot start with an ISO 8601 date. quick ~3e5 evaluations.",
    note="'must refuse' only outside a broad superset of ISO 8601 date prefixes", ref="DESIGN.md section 4 C18"),
  "C20": dict(technique="runtime monitoring: configuration-matrix runner that builds and EXECUTES a cfg-gated smoke program per feature set and checks the observed protocol/layer round-trip lines",
-   text="Every listed feature configuration is built from the current tree (hooks off) and its binary executed; a configuration passes only if exactly the enabled protocols round-tripped at exactly the enabled layers. quick = 8 singletons + 28 pairs + full set x 3 layers + default + none (113); thorough = all 255 subsets x 3 layers + 2 (767, exhaustive over the documented feature lattice).",
+   text="Every listed feature configuration is built from the current tree (hooks off) and its binary executed; a configuration passes only if exactly the enabled protocols round-tripped at exactly the enabled layers. quick = 8 singletons + 28 pairs + full set x 3 layers + 36 seeded random subsets of 3-7 protocols + default + none (149); thorough = all 255 subsets x 3 layers + 2 (767, exhaustive over the documented feature lattice).",
    note="one fixed input per protocol/layer; debug profile; host target only; cargo's feature resolver is trusted", ref="DESIGN.md section 4 C20", engine="c20-matrix"),
 }
 
